@@ -237,7 +237,7 @@ class PythonDuplicateAnalyzer(BaseTokenAnalyzer):  # thailint: ignore[srp.violat
         Returns:
             Tuple of (new_import_state, normalized_line or None if should skip)
         """
-        normalized = token_hasher.normalize_line(line)
+        normalized = token_hasher.normalize_line(line, ("#",))
         if not normalized:
             return in_multiline_import, None
 
